@@ -408,12 +408,31 @@ def gen_forged(rng, enc, steps=50):
 
 # ---------------------------------------------------------------- the script of C12_multiple_disconnected_refuted
 def multiple_disconnected_script(extra=2):
-    """130 (+extra-2) send_input calls on a Running endpoint whose peer never acknowledges."""
+    """130 (+extra-2) send_input calls on a Running endpoint whose peer never acknowledges
+    (the script of C12_multiple_disconnected_refuted; before 7ec8d35 the final poll returned
+    `disconnected;disconnected`)."""
     L = pair_header(None, {"window": 8, "timeout": 2000, "notify": 500, "fps": 60, "desync": 0}, 1, 0)
     complete_handshake(L)
     for f in range(128 + extra):
         L.append("send 0 0:%d:0 0:-1,0:-1" % f)
     L.append("poll 0 0:-1,0:-1")
+    return L
+
+
+def event_after_disconnected_script(packet_first=True):
+    """The script of C12_event_after_disconnected_refuted: an interrupted endpoint overflows in send_input
+    and then accepts a packet (or is polled late) before the poll that reports Disconnected.
+    Before 25d3021 the poll returned `disconnected;resumed` (or `disconnected;interrupted/..`)."""
+    L = pair_header(None, {"window": 8, "timeout": 2000, "notify": 500, "fps": 60, "desync": 0}, 1, 0)
+    complete_handshake(L)
+    if packet_first:
+        L += ["clock 501", "poll 0 0:-1,0:-1", "poll 1 0:-1,0:-1"]
+    for f in range(129):
+        L.append("send 0 0:%d:0 0:-1,0:-1" % f)
+    if packet_first:
+        L += ["deliver 1 0 0", "poll 0 0:-1,0:-1", "disc 0"]
+    else:
+        L += ["clock 501", "poll 0 0:-1,0:-1", "disc 0"]
     return L
 
 
